@@ -83,11 +83,11 @@ const (
 
 // Ref is one reference run.
 type Ref struct {
-	Trace     []string // canonical form of every 显示 call's arguments
-	frames    []*frame
-	Steps     int
-	MaxSteps  int
-	MaxDepth  int
+	Trace    []string // canonical form of every 显示 call's arguments
+	frames   []*frame
+	Steps    int
+	MaxSteps int
+	MaxDepth int
 	// ResultDefined reports whether the statement defines the program result
 	// (an 输出 executed, or the last top-level statement is an expression).
 	ResultDefined bool
@@ -99,12 +99,12 @@ type Ref struct {
 	lastVal V
 	// Open is set when the run depended on something the statement leaves open
 	// (e.g. a callee touching a caller's block-local name: dynamic vs lexical scoping).
-	Open     bool
-	OpenWhy  string
+	Open    bool
+	OpenWhy string
 	// BuiltinHook / FormatHook let individual checks plug library functions and
 	// the % formatter into the reference (they are specified by other properties).
-	BuiltinHook func(name string, args []V) (V, *ZErr)
-	FormatHook  func(tmpl string, args *LV) (V, *ZErr)
+	BuiltinHook   func(name string, args []V) (V, *ZErr)
+	FormatHook    func(tmpl string, args *LV) (V, *ZErr)
 	StrMethodHook func(s string, name string, args []V) (V, *ZErr)
 }
 
@@ -204,8 +204,11 @@ func (rf *Ref) declare(name string, v V, konst bool) *ZErr {
 	return nil
 }
 
-func (rf *Ref) push() { f := rf.cur(); f.blocks = append(f.blocks, &block{names: map[string]*binding{}}) }
-func (rf *Ref) pop()  { f := rf.cur(); f.blocks = f.blocks[:len(f.blocks)-1] }
+func (rf *Ref) push() {
+	f := rf.cur()
+	f.blocks = append(f.blocks, &block{names: map[string]*binding{}})
+}
+func (rf *Ref) pop() { f := rf.cur(); f.blocks = f.blocks[:len(f.blocks)-1] }
 
 // RunProgram executes a main program with inputs.
 func (rf *Ref) RunProgram(p *Program, inputs map[string]V) (res V, err *ZErr, aborted bool) {
@@ -1046,4 +1049,3 @@ func (rf *Ref) construct(cv *CV, args []V) (V, *ZErr) {
 	}
 	return o, nil
 }
-
